@@ -352,7 +352,22 @@ func c16(e *Env) {
 		if w.Stopped() {
 			return
 		}
-		w.RunUntil(func() bool { return false }, bound)
+		if c.Choose("noisy-window", 3) == 2 {
+			// the window is not quiet: a node keeps flapping (status events every few seconds, closer
+			// together than the refresh window); the refresh that follows the last real change must
+			// still happen within the window, it may not wait for the events to stop
+			until := w.Now() + bound
+			for w.Now() < until && !w.Stopped() {
+				n := w.Nodes[c.Choose("flapwho", len(w.Nodes))]
+				if n.Up && n.InCluster {
+					w.EmitEvent(&message.StatusChangeEvent{ChangeType: primitive.StatusChangeTypeUp, Address: &primitive.Inet{Addr: n.IP, Port: 9042}})
+				}
+				w.RunUntil(func() bool { return false }, time.Duration(2+c.Choose("flapevery", 6))*time.Second)
+			}
+			e.Res.Stats["probe.c16.noisy_refresh_window"]++
+		} else {
+			w.RunUntil(func() bool { return false }, bound)
+		}
 		if w.Stopped() {
 			return
 		}
